@@ -292,6 +292,8 @@ pub fn scenarios(tier: &str) -> Vec<Scenario> {
         m_block("B(set, call proxy->Ctx by p2)", vec![s_set(0, 0, 1), TxSpec::Call { pk: 2, tgt: proxy_tgt(), data: vec![0], len: DEFAULT_LEN }]),
         m_block("B(T(s0,n0->Ctx))", vec![t_ctx(0)]),
         m_block("B(T(s0,n1->Ctx))", vec![t_ctx(1)]),
+        // the same payload (nonce, target, data) signed by another key: the sender is whoever signed it
+        m_block("B(T(s1,n0->Ctx), the payload of T(s0,n0))", vec![TxSpec::Transact { signer: 1, nonce: 0, tgt: ctx_tgt(), data: vec![0], len: DEFAULT_LEN }]),
         m_block("B(deposit,withdraw)", vec![TxSpec::Deposit { pk: 1, ticker: "ordi".into(), amount: "0x5".into() }, TxSpec::Withdraw { pk: 1, ticker: "ordi".into(), amount: "0x1".into() }]),
         m_mine(1),
         m_mine(255),
